@@ -111,4 +111,5 @@ def run(tier):
                                for e in tr["ev"] if e["e"] in ("save_call", "crash", "listing", "restore_ok", "restore_failed", "end")][:12]})
     rep.assumptions = ["kill points are those of the runs executed (hook events and file-system mutations), not wall-clock "
                        "instants inside a system call", "Orbax 0.12.4 / tensorstore as the environment; local POSIX file system"]
+    rep.extra["machinery_retries"] = list(ckptlib.RETRIES)
     return rep.finish()
